@@ -471,3 +471,319 @@ theorem convMathPrimes_carries (e : Env) (cs : List ANode) (a : Attrs) (hda : a.
   · exact Post.rejected _
 
 end Typstyle
+
+namespace Typstyle
+open Twin
+variable {Q QM : ANode → Prop}
+
+/-! ### delimited math -/
+
+/-- A child between the delimiters of a `MathDelimited`. -/
+def midOK (QM : ANode → Prop) (c : ANode) : Prop :=
+  ANode.tokensAreLeaves c = true ∧ ((c.kind = .math ∧ QM c) ∨ c.kind = .space ∨ isCommentKind c.kind = true)
+
+def okD (QM : ANode → Prop) (c : Ctx) (child : ANode) : Prop :=
+  ANode.tokensAreLeaves child = true ∧ ((child.kind = .math ∧ c.mode = .math ∧ QM child) ∨ child.kind = .space)
+
+theorem delimitedProducer_ok (r : Rec) (hrM : RecOKM r QM) : ProducerH (delimitedProducer r) specAll (okD QM) := by
+  intro st c child hok
+  unfold delimitedProducer
+  split
+  · rename_i hk
+    have hk' : child.kind = .math := by simpa using hk
+    rcases hok.2 with h | h
+    · exact Post.bind (hrM.math c child h.2.1 hk' h.2.2) (fun d hd => Post.pure hd)
+    · rw [hk'] at h; cases h
+  · rename_i hk
+    split
+    · rename_i hs
+      refine Post.pure ?_
+      show Carries _ (specAll child)
+      rw [specAll_space child hok.1 (by simpa using hs)]
+      split
+      · exact Carries.line
+      · exact Carries.space
+    · rename_i hs
+      rcases hok.2 with h | h
+      · exact absurd (by simpa using h.1) hk
+      · exact absurd (by simpa using h) hs
+
+theorem mid_okSeq (ctx : Ctx) (hm : ctx.mode = .math) (l : List ANode) (h : ∀ c ∈ l, midOK QM c) :
+    okSeq (okD QM) ctx false l := by
+  induction l with
+  | nil => trivial
+  | cons c cs ih =>
+    have hc := h c List.mem_cons_self
+    have hnh : (c.kind == .hash) = false := by
+      rcases hc.2 with h1 | h1 | h1
+      · rw [h1.1]; rfl
+      · rw [h1]; rfl
+      · exact comment_not_hash _ h1
+    refine ⟨?_, by rw [hnh]; exact ih (fun x hx => h x (List.mem_cons_of_mem _ hx))⟩
+    rcases hc.2 with h1 | h1 | h1
+    · exact Or.inr ⟨hc.1, Or.inl ⟨h1.1, hm, h1.2⟩⟩
+    · exact Or.inr ⟨hc.1, Or.inr h1⟩
+    · exact Or.inl (Or.inr (Or.inl h1))
+
+theorem mid_lex (l : List ANode) (h : ∀ c ∈ l, midOK QM c) : ANode.tokensAreLeavesL l = true := by
+  induction l with
+  | nil => rfl
+  | cons c cs ih =>
+    simp only [ANode.tokensAreLeavesL, Bool.and_eq_true]
+    exact ⟨(h c List.mem_cons_self).1, ih (fun x hx => h x (List.mem_cons_of_mem _ hx))⟩
+
+/-- **`convert_math_delimited`**. -/
+theorem convMathDelimited_carries (e : Env) (r : Rec) (hrM : RecOKM r QM) (ctx : Ctx) (hm : ctx.mode = .math)
+    (c0 c1 : ANode) (mid : List ANode) (a : Attrs) (hda : a.disabled = false)
+    (hx0 : isExpr c0 = true) (hx1 : isExpr c1 = true) (hq0 : QM c0) (hq1 : QM c1)
+    (hmid : ∀ c ∈ mid, midOK QM c) :
+    Post (convMathDelimited e r ctx (.inner .mathDelimited (c0 :: (mid ++ [c1])) a))
+      (fun d => Carries d (specAll (.inner .mathDelimited (c0 :: (mid ++ [c1])) a))) := by
+  have hv : isVerbatimNode .mathDelimited (c0 :: (mid ++ [c1])) a = false := by simp [isVerbatimNode, hda]
+  rw [specAll_inner .mathDelimited _ a hv (by decide), specAllL_cons, specAllL_append, specAllL_cons, specAllL_nil,
+    Streams.app_empty]
+  -- the general statement, for any way of stripping the boundary spaces
+  have key : ∀ (pa pb : Doc × List ANode), Carries pa.1 {} → Carries pb.1 {} →
+      (pa.2 = mid ∨ ∃ f, mid = f :: pa.2 ∧ f.kind = .space) →
+      (pb.2 = pa.2 ∨ ∃ l, pa.2 = pb.2 ++ [l] ∧ l.kind = .space) →
+      Post (do
+        let body ← flowM e ctx pb.2 () (delimitedProducer r)
+        let op ← r.expr ctx c0
+        let cl ← r.expr ctx c1
+        pure ((((pa.1 ++ body).nstTab) ++ pb.1).enclose op cl))
+        (fun d => Carries d ((specAll c0).app ((specAllL mid).app (specAll c1)))) := by
+    intro pa pb ha hb hpa hpb
+    have hA : specAllL pa.2 = specAllL mid ∧ ∀ c ∈ pa.2, midOK QM c := by
+      rcases hpa with h | ⟨f, h, hk⟩
+      · rw [h]; exact ⟨rfl, hmid⟩
+      · refine ⟨?_, fun c hc => hmid c (by rw [h]; exact List.mem_cons_of_mem _ hc)⟩
+        rw [h, specAllL_cons, specAll_space f (hmid f (by rw [h]; exact List.mem_cons_self)).1 hk, Streams.empty_app]
+    have hB : specAllL pb.2 = specAllL mid ∧ ∀ c ∈ pb.2, midOK QM c := by
+      rcases hpb with h | ⟨l, h, hk⟩
+      · rw [h]; exact hA
+      · have hl := hA.2 l (by rw [h]; simp)
+        refine ⟨?_, fun c hc => hA.2 c (by rw [h]; exact List.mem_append_left _ hc)⟩
+        rw [← hA.1, h, specAllL_append, specAllL_cons, specAllL_nil, specAll_space l hl.1 hk]
+        simp
+    have hs := hB.1
+    have hall := hB.2
+    have hflow := flowM_carriesH (sem := specAll) (commentOK e) (delimitedProducer_ok r hrM)
+      (fun cc c hok hk => specAll_space c hok.1 hk) pb.2 (mid_okSeq ctx hm pb.2 hall) ()
+    rw [contribL_specAll _ (mid_lex pb.2 hall), hs] at hflow
+    refine Post.bind hflow (fun body hbody => ?_)
+    refine Post.bind (hrM.expr ctx c0 hm hx0 hq0) (fun op hop => ?_)
+    refine Post.bind (hrM.expr ctx c1 hm hx1 hq1) (fun cl hcl => Post.pure ?_)
+    have h1 : Carries (((pa.1 ++ body).nstTab) ++ pb.1) (specAllL mid) := by
+      simpa using ((ha.app hbody).nstTab).app hb
+    simpa [Streams.app_assoc] using h1.enclose hop hcl
+  unfold convMathDelimited
+  simp only [ANode.children]
+  have hlen : ¬ ((c0 :: (mid ++ [c1])).length < 2) := by simp
+  simp only [hlen, ↓reduceIte]
+  have hinner : ((c0 :: (mid ++ [c1])).drop 1).dropLast = mid := by simp
+  have hf : firstWhere (.inner .mathDelimited (c0 :: (mid ++ [c1])) a) isExpr = some c0 := by
+    simp [firstWhere, ANode.children, hx0]
+  have hl : lastWhere (.inner .mathDelimited (c0 :: (mid ++ [c1])) a) isExpr = some c1 := by
+    simp [lastWhere, ANode.children, hx1]
+  simp only [hinner, hf, hl, childOr, M.pure_bind]
+  refine key _ _ ?_ ?_ ?_ ?_
+  · -- leading space
+    cases mid with
+    | nil => exact Carries.nil
+    | cons f rest =>
+      simp only
+      split
+      · split
+        · exact Carries.hardline
+        · exact Carries.space
+      · exact Carries.nil
+  · -- trailing space
+    split
+    · split
+      · split
+        · exact Carries.hardline
+        · exact Carries.space
+      · exact Carries.nil
+    · exact Carries.nil
+  · -- what the leading strip leaves
+    cases mid with
+    | nil => exact Or.inl rfl
+    | cons f rest =>
+      simp only
+      split
+      · rename_i hk
+        exact Or.inr ⟨f, rfl, by simpa using hk⟩
+      · exact Or.inl rfl
+  · -- what the trailing strip leaves
+    split
+    · rename_i l hl
+      split
+      · rename_i hk
+        exact Or.inr ⟨l, dropLast_getLast _ l hl, by simpa using hk⟩
+      · exact Or.inl rfl
+    · exact Or.inl rfl
+
+end Typstyle
+
+namespace Typstyle
+open Twin
+variable {Q QM : ANode → Prop}
+
+/-! ### calls in math mode -/
+
+theorem mathArgProducer_ok (e : Env) (r : Rec) (hr : RecOK r Q) (hrM : RecOKM r QM) :
+    ProducerH (mathArgProducer e r) specAll (okM Q QM) := by
+  intro st c child hok
+  unfold mathArgProducer
+  split
+  · rename_i hk
+    exact Post.bind (synLeaf_carries e child "," hok.1 (by rw [hk]; decide)) (fun d hd => Post.pure hd)
+  · rename_i hk
+    exact Post.bind (synLeaf_carries e child ";" hok.1 (by rw [hk]; decide)) (fun d hd => Post.pure hd)
+  · rename_i hk
+    split
+    · refine Post.pure ?_
+      show Carries Twin.hardline (specAll child)
+      rw [okM_space c child hok hk]; exact Carries.hardline
+    · exact Post.pure (okM_space c child hok hk)
+  · rename_i h1 h2 h3
+    split
+    · rename_i harg
+      by_cases hx : isExpr child = true
+      · unfold convArg
+        have hn1 : child.kind ≠ .named := by intro hk; unfold isExpr at hx; rw [hk] at hx; cases hx
+        have hn2 : child.kind ≠ .spread := by intro hk; unfold isExpr at hx; rw [hk] at hx; cases hx
+        split
+        · rename_i hk; exact absurd hk hn1
+        · rename_i hk; exact absurd hk hn2
+        · exact Post.bind (okM_expr r hr hrM c child hok hx) (fun d hd => Post.pure hd)
+      · -- a named or spread argument: not in the math fragment
+        exfalso
+        have h2' := hok.2
+        simp only [hx, Bool.false_eq_true, ↓reduceIte] at h2'
+        unfold isArg at harg
+        simp only [hx, Bool.or_false, Bool.or_eq_true, beq_iff_eq] at harg
+        rcases h2' with hk | hk | hk
+        · exact h3 hk
+        · rcases harg with hn | hn <;> (rw [hn] at hk; cases hk)
+        · rcases harg with hn | hn <;> (rw [hn] at hk; cases hk)
+    · exact Post.rejected _
+
+theorem syn_paren (e : Env) : Carries (e.syn "(") {} ∧ Carries (e.syn ")") {} := by
+  constructor
+  · refine (Carries.mkText e.wd .syn "(").congr ?_
+    apply Streams.ext' <;> simp [tagS, Pretty.charsOf] <;> decide
+  · refine (Carries.mkText e.wd .syn ")").congr ?_
+    apply Streams.ext' <;> simp [tagS, Pretty.charsOf] <;> decide
+
+theorem specAll_delim (c : ANode) (h : ANode.tokensAreLeaves c = true) (hk : c.kind.fixedText.isSome = true) : specAll c = {} :=
+  specAll_ignorable c h (by unfold isIgnorable; simp [hk])
+
+/-- **`convert_args_in_math`** on `( … )` whose content neither starts nor ends with white space. -/
+theorem convArgsInMath_carries (e : Env) (r : Rec) (hr : RecOK r Q) (hrM : RecOKM r QM) (ctx : Ctx) (hm : ctx.mode = .math)
+    (lp rp : ANode) (mid : List ANode) (a : Attrs)
+    (hlp : lp.kind = .leftParen) (hrp : rp.kind = .rightParen) (hl0 : ANode.tokensAreLeaves lp = true) (hl1 : ANode.tokensAreLeaves rp = true)
+    (hhead : ∀ c, mid.head? = some c → (c.kind == .leftParen || c.kind == .space) = false)
+    (hlast : ∀ c, mid.getLast? = some c → (c.kind == .rightParen || c.kind == .space) = false)
+    (hseq : MathSeqOK Q QM false mid) :
+    Post (convArgsInMath e r ctx (.inner .args (lp :: (mid ++ [rp])) a))
+      (fun d => Carries d (specAll (.inner .args (lp :: (mid ++ [rp])) a))) := by
+  have hv : isVerbatimNode .args (lp :: (mid ++ [rp])) a = false := by simp [isVerbatimNode, Kind.isExpr]
+  rw [specAll_inner .args _ a hv (by decide), specAllL_cons, specAllL_append, specAllL_cons, specAllL_nil,
+    specAll_delim lp hl0 (by rw [hlp]; rfl), specAll_delim rp hl1 (by rw [hrp]; rfl)]
+  simp only [Streams.empty_app, Streams.app_empty]
+  have hi : (lp :: (mid ++ [rp])).findIdx? (fun c => !(c.kind == .leftParen || c.kind == .space)) = some 1 := by
+    rw [List.findIdx?_cons]
+    simp only [hlp, beq_self_eq_true, Bool.true_or, Bool.not_true, Bool.false_eq_true, ↓reduceIte]
+    cases mid with
+    | nil => simp [List.findIdx?_cons, hrp]
+    | cons m0 ms =>
+      have := hhead m0 rfl
+      simp only [Bool.or_eq_false_iff, beq_eq_false_iff_ne, ne_eq] at this
+      simp [List.findIdx?_cons, this]
+  have hj : (lp :: (mid ++ [rp])).reverse.findIdx? (fun c => !(c.kind == .rightParen || c.kind == .space)) = some 1 := by
+    rw [List.reverse_cons, List.reverse_append, List.reverse_cons, List.reverse_nil, List.nil_append, List.singleton_append,
+      List.cons_append, List.findIdx?_cons]
+    simp only [hrp, beq_self_eq_true, Bool.true_or, Bool.not_true, Bool.false_eq_true, ↓reduceIte]
+    cases hml : mid.reverse with
+    | nil => simp [List.findIdx?_cons, hlp]
+    | cons ml ms =>
+      have hgl : mid.getLast? = some ml := by
+        rw [← List.head?_reverse, hml]; rfl
+      have := hlast ml hgl
+      simp only [Bool.or_eq_false_iff, beq_eq_false_iff_ne, ne_eq] at this
+      simp [List.findIdx?_cons, this]
+  unfold convArgsInMath
+  simp only [ANode.children, hi, hj, Option.getD_some]
+  have hslice : (if (decide (1 > (lp :: (mid ++ [rp])).length - 1 - 1 + 1) ||
+        decide ((lp :: (mid ++ [rp])).length - 1 - 1 ≥ (lp :: (mid ++ [rp])).length)) = true then []
+      else List.take ((lp :: (mid ++ [rp])).length - 1 - 1 + 1 - 1) (List.drop 1 (lp :: (mid ++ [rp])))) = mid := by
+    have hlen : (lp :: (mid ++ [rp])).length = mid.length + 2 := by simp
+    rw [hlen]
+    have h1 : (decide (1 > mid.length + 2 - 1 - 1 + 1) || decide (mid.length + 2 - 1 - 1 ≥ mid.length + 2)) = false := by
+      simp only [Bool.or_eq_false_iff, decide_eq_false_iff_not]
+      omega
+    rw [h1]
+    simp only [Bool.false_eq_true, ↓reduceIte]
+    have h2 : mid.length + 2 - 1 - 1 + 1 - 1 = mid.length := by omega
+    rw [h2, List.drop_one, List.tail_cons, List.take_left']
+    rfl
+  simp only [hslice]
+  have hflow := flowM_carriesH (sem := specAll) (commentOK e) (mathArgProducer_ok e r hr hrM)
+    (fun cc c hok hk => okM_space cc c hok hk) mid (mathSeq_okSeq ctx hm mid false hseq) false
+  rw [contribL_specAll _ (mathSeq_lex mid false hseq)] at hflow
+  refine Post.bind hflow (fun inner hin => ?_)
+  have hp := syn_paren e
+  split
+  · have key : ∀ cl : Doc, Carries cl {} →
+        Carries ((((Twin.line_ ++ inner).nstTab ++ cl).grp).enclose (e.syn "(") (e.syn ")")) (specAllL mid) := by
+      intro cl hcl
+      have := ((((Carries.line_.app hin).nstTab).app hcl).grp).enclose hp.1 hp.2
+      simpa using this
+    refine Post.pure (key _ ?_)
+    split
+    · split
+      · exact Carries.hardline
+      · exact Carries.line_
+    · exact Carries.line_
+  · exact Post.pure (by simpa using hin.enclose hp.1 hp.2)
+
+end Typstyle
+
+namespace Typstyle
+open Twin
+variable {Q QM : ANode → Prop}
+
+theorem mathSeq_prefix (l1 l2 : List ANode) : ∀ hh, MathSeqOK Q QM hh (l1 ++ l2) → MathSeqOK Q QM hh l1 := by
+  induction l1 with
+  | nil => intro _ _; trivial
+  | cons c cs ih =>
+    intro hh h
+    simp only [List.cons_append, MathSeqOK] at h ⊢
+    exact ⟨h.1, h.2.1, ih _ h.2.2⟩
+
+/-- **`convert_func_call` in math mode** (callee not a field access). -/
+theorem convFuncCallM_carries (e : Env) (r : Rec) (hrM : RecOKM r QM) (ctx : Ctx) (hm : ctx.mode = .math)
+    (callee args : ANode) (a : Attrs) (hda : a.disabled = false)
+    (hxc : isExpr callee = true) (hnf : callee.kind ≠ .fieldAccess) (hqc : QM callee) (hak : args.kind = .args)
+    (hargs : Post (convArgsInMath e r ctx args) (fun d => Carries d (specAll args))) :
+    Post (convFuncCall e r ctx (.inner .funcCall [callee, args] a))
+      (fun d => Carries d (specAll (.inner .funcCall [callee, args] a))) := by
+  have hv : isVerbatimNode .funcCall [callee, args] a = false := by simp [isVerbatimNode, hda]
+  rw [specAll_inner .funcCall _ a hv (by decide)]
+  unfold convFuncCall firstWhere lastWhere
+  have hf1 : ([callee, args] : List ANode).find? isExpr = some callee := by rw [List.find?_cons, hxc]
+  have hf2 : ([callee, args] : List ANode).reverse.find? (fun x => x.kind == .args) = some args := by
+    show ([args, callee] : List ANode).find? _ = _
+    rw [List.find?_cons]; simp [hak]
+  have hcf : (callee.kind == .fieldAccess) = false := by simpa using hnf
+  simp only [ANode.children, hf1, hf2, childOr, M.pure_bind, hcf, Bool.false_eq_true, ↓reduceIte]
+  refine Post.bind (hrM.expr ctx callee hm hxc hqc) (fun dc hdc => ?_)
+  have heqa : convFuncCallArgs e r ctx (.inner .funcCall [callee, args] a) args = convArgsInMath e r ctx args := by
+    unfold convFuncCallArgs
+    simp [hm]
+  rw [heqa]
+  refine Post.bind hargs (fun da hda' => Post.pure ?_)
+  simpa [specAllL_cons] using hdc.app hda'
+
+end Typstyle
